@@ -288,6 +288,28 @@ def rule_defwrite(ctx: Ctx):
             rep.violation("C16.defwrite", fn.loc(n), f"instance-time code `{fn.qualname}` writes `{recv}.{attr}` on a definition object "
                           f"({', '.join(sorted(hit))}) shared by every instance of the class", fn.key, norm_stmt(_stmt(fn, n)))
     rep.count("definition_object_writes_examined", n_w)
+    # instance-time code must not write class-level attributes (shared by every instance of the class)
+    n_cls = 0
+    for fn in sorted(reach, key=lambda f: f.key):
+        if fn.cls is None or fn.cls.name in ("StateMachineMetaclass",) or "classmethod" in fn.decorators:
+            continue
+        aliases = set()
+        for n in own_nodes(fn.node):
+            if isinstance(n, ast.Assign) and len(n.targets) == 1 and isinstance(n.targets[0], ast.Name) and \
+                    show(n.value) in ("type(self)", "self.__class__"):
+                aliases.add(n.targets[0].id)
+        for n in own_nodes(fn.node):
+            if isinstance(n, ast.Attribute) and isinstance(n.ctx, (ast.Store, ast.Del)):
+                recv = show(n.value)
+                if recv in ("type(self)", "self.__class__") or recv in aliases:
+                    n_cls += 1
+                    rep.violation("C16.defwrite", fn.loc(n), f"instance-time code `{fn.qualname}` writes the class attribute `{n.attr}`: what the first "
+                                  "instance computes is reused by every later instance of the class", fn.key, norm_stmt(_stmt(fn, n)))
+            if isinstance(n, ast.Call) and isinstance(n.func, ast.Name) and n.func.id == "setattr" and n.args and \
+                    (show(n.args[0]) in ("type(self)", "self.__class__") or show(n.args[0]) in aliases):
+                rep.violation("C16.defwrite", fn.loc(n), f"instance-time code `{fn.qualname}` sets an attribute on the class", fn.key, norm_stmt(n))
+    if not n_cls:
+        rep.ok("C16.defwrite", "package", "no instance-time function writes a class-level attribute", functions=len(reach))
 
 
 def _fresh_receiver(ctx: Ctx, fn: FuncInfo, tgt: ast.AST):
